@@ -80,4 +80,13 @@ theorem shared_member_tables_written_after_the_workers :
   decide
 #print axioms shared_member_tables_written_after_the_workers
 
+/-- the third pass (scattered files of a project-mode workspace): the results are folded into the shared, unlocked
+    AnalysisThird.FileErrorMap by recvThirdFile — called by the coordinator inside its receive loop, once per received
+    result, and by no worker: the map has one writer for any number of workers and files -/
+theorem third_pass_results_folded_by_the_coordinator :
+    "recvThirdFile" ∉ Gen.thirdPassWorkerCalls ∧ Gen.thirdPassLoopCalls = ["recvThirdFile"] ∧
+    Gen.thirdPassWorkerCalls = ["CreateAnalysisThirdFile", "handleOneFile"] := by
+  decide
+#print axioms third_pass_results_folded_by_the_coordinator
+
 end LuaHelper.Pools
